@@ -9,34 +9,34 @@ BASE = ("go/types + go/ssa (x/tools v0.29.0) faithful IR; stdlib contracts as do
 
 CHECKS = {
  "C02": dict(level="other", ref="§4 C02",
-   text="Oracle: the MQTT v5.0 layout table carried by the checker (type codes and reserved bits, ordered fields with wire kinds and presence rules, allowed property sets with kinds), keyed by exported names and sharing nothing with the library. For every abstract well-formed packet state (C01's generator) the encoder's event sequence, obtained by evaluating its SSA form with the wire primitives observed, is walked against the table: first byte, remaining length = bytes that follow, field order and sources (through the exported accessors), presence of optional items (CONNECT flags, QoS), property identifiers/kinds/uniqueness/sources, property length = properties that follow, and the optional-section chain reason code <= property length <= properties. Exported identifier constants are compared with the 27 defined ones. Primitive encodings are C01 R1.4 / C15.",
+   text="Oracle: the MQTT v5.0 layout table carried by the checker (type codes and reserved bits, ordered fields with wire kinds and presence rules, allowed property sets with kinds), keyed by exported names and sharing nothing with the library. For every abstract well-formed packet state (C01's generator) the encoder's event sequence, obtained by evaluating its SSA form with the wire primitives observed, is walked against the table: first byte, remaining length = bytes that follow, field order and sources (through the exported accessors), presence of optional items (CONNECT flags, QoS), property identifiers/kinds/uniqueness/sources, property length = properties that follow, and the optional-section chain reason code <= property length <= properties. The CONNECT flags byte and CONNACK acknowledge flags written are compared with the specification's function of the packet (also on states where every setter is called twice or cleared again, and with a will built by every PUBLISH setter). Length prefixes are additionally decided structurally for all states (path enumeration: the dry-run calls summed into a prefix are exactly the emissions it covers). Exported identifier, CONNECT-flag and subscription-option constants are compared with the specification's values. Primitive encodings are C01 R1.4 / C15.",
    technique="static analysis: abstract interpretation of the encoders' SSA over a layout domain, compared with a specification table"),
  "C03": dict(level="other", ref="§4 C03",
-   text="Oracle: abstract valid frames generated from the specification table, not from the library's encoder: per packet type no properties / each allowed property alone / all ascending and descending (repeatable ones twice) / explicit zero values / legal short forms (PUBACK family 2,3,4; DISCONNECT 0,1; AUTH 0; PUBLISH with/without id and payload; CONNECT with/without will and credentials). Each is a token stream (kinds and widths from the specification, values as tags); the decoder's SSA form is evaluated on it with the wire primitives replaced by their contracts; it must accept, consume everything, and every value the frame carries must be what the exported accessors then report. Structural half of the zero-value clause: no wire decoder rejects input because of the decoded value. Boundary lengths rest on the no-wrap proof of the length-prefixed decoder.",
+   text="Oracle: abstract valid frames generated from the specification table, not from the library's encoder: per packet type no properties / each allowed property alone / all ascending and descending (repeatable ones twice) / explicit zero values / legal short forms (PUBACK family 2,3,4; DISCONNECT 0,1; AUTH 0; PUBLISH with/without id and payload; CONNECT without will / will QoS 1 retained / will QoS 2, each with no, user-name-only, password-only and both credentials, flags byte from the table). Each is a token stream (kinds and widths from the specification, values as tags); the decoder's SSA form is evaluated on it with the wire primitives replaced by their contracts; it must accept, consume everything, and every value the frame carries must be what the exported accessors then report. Structural half of the zero-value clause: no wire decoder rejects input because of the decoded value. Boundary lengths rest on the no-wrap proof of the length-prefixed decoder; the reader's advance per value is shown to equal the encoder's width for that value.",
    technique="static analysis: abstract interpretation of the decoders' SSA on specification-derived abstract token streams"),
  "C01": dict(level="other", ref="§4 C01",
-   text="Round-trip equality of runtime values is not statically decidable here; decided are its structural necessary conditions, by abstract co-simulation on the SSA form. Packet states are built by evaluating the public constructor and setters on abstract values (lengths with identity tags, representative integers; none/all/each setter alone/all-but-one/all subsets of guard-relevant setters, with and without a will). The encoder is evaluated with the wire primitives observed (field-level event sequence); the decoder's own code (guards, sequential reader, property loop, post-processing) is evaluated on the resulting token stream with the wire primitives replaced by their contracts. Checked: the decoder reads exactly what was written into destinations of the same wire kind and consumes the frame without error; every exported accessor (incl. the nested will) returns the same on the decoded state; every settable field is emitted in some state; re-encoding gives the same token stream; per wire kind the encoder/decoder primitives are structurally inverse (same N and byte order, prefix=len, region [2,2+len)).",
+   text="Round-trip equality of runtime values is not statically decidable here; decided are its structural necessary conditions, by abstract co-simulation on the SSA form. Packet states are built by evaluating the public constructor and setters on abstract values (lengths with identity tags, representative integers; none/all/each setter alone/all-but-one/all subsets of guard-relevant setters, every length and integer at the boundary values 127, 128, 16383, 16384, 65534, 65535 and at every constant the code compares a length with, every setter called twice, everything cleared again; with and without a will). The encoder is evaluated with the wire primitives observed (field-level event sequence); the decoder's own code (guards, sequential reader, property loop, post-processing) is evaluated on the resulting token stream with the wire primitives replaced by their contracts. Checked: the decoder reads exactly what was written into destinations of the same wire kind and consumes the frame without error; every exported accessor (incl. the nested will) returns the same on the decoded state; every settable field is emitted in some state; re-encoding gives the same token stream; per wire kind the encoder/decoder primitives are structurally inverse (same N and byte order, same-width conversions only, prefix=len, region [2,2+len)), every encoder primitive writes whenever the buffer has room (its guard's skipping edge entails len(buf) < offset+extent), and width() - by which the reader advances - is the encoder's width for the same value.",
    technique="static analysis: abstract interpretation of encoder and decoder SSA over a layout domain (abstract co-simulation) + structural pairing rules for the wire primitives"),
  "C12": dict(level="other", ref="§4 C12",
    text="Every exported SetX/X() pair of the 15 packet types and TopicFilter is evaluated on the SSA form as transition function and decision function over abstract receiver states (all 256 values of every flag byte the setter reads, zero and all-ones backgrounds) and abstract arguments (all booleans, representative bytes, boundary integers, lengths 0/1/2 with identity tags): pairing (X() returns the value set; SetQoS: 0..3, else 0), frame (no other zero-argument accessor of the type changes) and derived flags (CONNECT user-name/password flags iff non-empty; SetWill mirrors will flag, retain and QoS bits). Pairing + frame give last-write-wins for every finite setter sequence by induction. Adders and the encoded frame are C01's.",
    technique="static analysis: evaluation of extracted transition/decision functions over a finite abstract domain (no library code is run; the SSA form is the formula)"),
  "C18": dict(level="proof", ref="§4 C18",
-   text="Non-interference by taint analysis: forward value-flow over the SSA form of every function reachable from Connect.String, Connect.dump and Dump, from loads of the fields behind Username()/Password() (and struct copies containing them) through conversions, slicing, element loads, phis, local stores, copy into buffers, closures, calls and results; no tainted value reaches a fmt operand, a Write argument or a returned rendering, and no branch condition is tainted (no implicit flow); len/cap/copy-count carry only the length. Proof modulo the fmt model.",
+   text="Non-interference by taint analysis: forward value-flow over the SSA form of every function reachable from Connect.String, Connect.dump and Dump, from loads of the fields behind Username()/Password() (and struct copies containing them) through conversions, slicing, element loads, phis, local stores, copy into buffers, closures, calls and results; no tainted value reaches a fmt operand, a Write argument or a returned rendering, and no branch condition is tainted (no implicit flow); len/cap/copy-count carry only the length. For packets decoded from the wire the sequential reader's offset is shown to be written only by its guarded primitive, which only moves forward, so no byte is decoded into two fields. Proof modulo the fmt model.",
    technique="static analysis: interprocedural secrecy taint (explicit and implicit flows) on go/ssa"),
  "C15": dict(level="other", ref="§4 C15",
-   text="The structural part only: all radix/mask/bound/continuation constants of the encoder and of both decoders are extracted from the SSA form (normalising <<7, *128, %128, &127), compared with each other and with MQTT's 7-bit groups and 4-byte maximum; the two decoders agree on update, guard and termination test; the encoder sets the continuation bit exactly when the quotient is non-zero and leaves exactly when it is zero; both decoders keep the size guard on every cycle and only the no-continuation exit reaches success; the streaming decoder consumes one byte per iteration; the in-memory path advances by the encoder's dry-run width inside the reader's bounds check. The numeric bijection over 2^28 values and exact decoded values are NOT decided.",
+   text="The structural part only: all radix/mask/bound/continuation constants of the encoder and of both decoders are extracted from the SSA form (normalising <<7, *128, %128, &127), compared with each other and with MQTT's 7-bit groups and 4-byte maximum; the two decoders agree on update, guard and termination test; the encoder sets the continuation bit exactly when the quotient is non-zero and leaves exactly when it is zero; both decoders keep the size guard on every cycle and only the no-continuation exit reaches success; the streaming decoder consumes one byte per iteration; the in-memory path advances by the encoder's dry-run width inside the reader's bounds check; the fixed header's length cell is written by the streaming decoder alone (no second decoder in front of it). The numeric bijection over 2^28 values and exact decoded values are NOT decided.",
    technique="static analysis: constant extraction and loop-shape matching on go/ssa, sibling cross-check"),
  "C16": dict(level="other", ref="§4 C16",
-   text="The dispatch is a finite structure: the comparison chain on (first byte & 0xF0) is extracted with its constants and arms and compared with the MQTT v5.0 type table carried by the checker (15 codes, exported type names); each arm stores the unmasked first byte into the field that type's encoder emits first (the constructor's type-code field); the default yields Undefined; constructors carry the right code and reserved bits; Publish.Duplicate/QoS/Retain are evaluated as decision functions of that byte on all 256 values against bits 3, 2-1, 0; Undefined keeps a copy of the frame where Data() reads.",
+   text="The dispatch is a finite structure: the comparison chain on (first byte & 0xF0) is extracted with its constants and arms and compared with the MQTT v5.0 type table carried by the checker (15 codes, exported type names); each arm stores the unmasked first byte into the field that type's encoder emits first (the constructor's type-code field); the default yields Undefined; constructors carry the right code and reserved bits; Publish.Duplicate/QoS/Retain are evaluated as decision functions of that byte on all 256 values against bits 3, 2-1, 0; Undefined keeps a copy of the frame where Data() reads; every WriteTo goes through the type's encoder; nothing reachable from a body decoder stores to the first-byte field or overwrites the packet as a whole.",
    technique="static analysis: switch/constant extraction against a specification table; exhaustive evaluation of extracted one-byte decision functions"),
  "C17": dict(level="other", ref="§4 C17",
    text="Publish.WellFormed, Subscribe.WellFormed and TopicFilter.WellFormed are treated as decision functions over the receiver's fields (identified through the exported accessors and the constructor's type code): every combination of abstract values of the atoms the rules mention (topic empty?, alias, all 256 first bytes, packet id, 0-3 filters, filter empty?, option bytes, subscription id absent/0/1/limit/limit+1) is pushed through the function's SSA decision tree and compared with the rule from the property text; String is shown to return through the suffixing helper on the same receiver, and the helper to return its argument unchanged iff WellFormed()==nil and else a constant format containing 'malformed!'.",
    technique="static analysis: decision-tree extraction from go/ssa and propositional comparison over the atoms' finite abstract domain; CFG result-flow rule for String"),
  "C10": dict(level="other", ref="§4 C10",
-   text="WriteTo's shape is read off the SSA form by value identity: one buffer made with the dry-run size fill(nil-slice,0) of the receiver, filled once by the same function from offset 0, exactly one Write of that very buffer on every path, the writer used for nothing else, results int64(n), err of that call; Undefined returns a non-nil error and never touches the writer. A ghost counter over the emissions of every fill-family function shows each emission to be made at entry offset + widths of all earlier emissions and the return to be that sum; primitives are shown to write contiguous pieces totalling what they return (extent rule, byte-per-iteration rule for the variable-byte-integer encoder); the returned width is the same on both sides of every buffer-size guard (dry run = real run); String prints the dry-run size. That the remaining-length value equals the bytes that follow is C02's.",
+   text="WriteTo's shape is read off the SSA form by value identity: one buffer made with the dry-run size fill(nil-slice,0) of the receiver, filled once by the same function from offset 0, exactly one Write of that very buffer on every path, the writer used for nothing else, results int64(n), err of that call; Undefined returns a non-nil error and never touches the writer. A ghost counter over the emissions of every fill-family function shows each emission to be made at entry offset + widths of all earlier emissions and the return to be that sum; primitives are shown to write contiguous pieces totalling what they return (extent rule, byte-per-iteration rule for the variable-byte-integer encoder); the returned width is the same on both sides of every buffer-size guard (dry run = real run); String prints the dry-run size; buffer-size guards skip writes only when the buffer really is too short. The remaining-length value equals the bytes that follow: evaluated on every abstract packet state (incl. boundary lengths) and decided structurally for all states by path enumeration over every function that emits a length prefix (the dry-run calls summed into the prefix are exactly the emissions it covers).",
    technique="static analysis: SSA value-identity/result-flow rules, ghost-counter offset threading, linear-form equality of written extents"),
  "C09": dict(level="other", ref="§4 C09",
-   text="The four rejection classes as path rules on the SSA form: (a) truncation inside a field — every field is read through the sequential reader's guarded primitive, proven to fail at end of data and never to advance beyond it, and every wire decoder is proven to return nil only when at least its minimum width is present, every other return being a non-nil error; the sticky error is what every packet decoder returns and ReadPacket turns it into (nil, err); (b) both variable-byte-integer decoders keep the size guard on every cycle and only the no-continuation-bit exit reaches success; (c) the boolean decoder succeeds only on the byte==0 / byte==1 edges; (d) in the property loop every iteration reads a value or records a non-nil error, and all accepted identifiers are among the 27 of MQTT v5.0. The mechanism is decided, not the enumeration of every cut of every frame.",
+   text="The four rejection classes as path rules on the SSA form: (a) truncation inside a field — every field is read through the sequential reader's guarded primitive, proven to fail at end of data and never to advance beyond it, and every wire decoder is proven to return nil only when at least its minimum width is present, every other return being a non-nil error; the sticky error is what every packet decoder returns and ReadPacket turns it into (nil, err); (b) both variable-byte-integer decoders keep the size guard on every cycle and only the no-continuation-bit exit reaches success; (c) the boolean decoder succeeds only on the byte==0 / byte==1 edges; (d) in the property loop every iteration reads a value or records a non-nil error, and all accepted identifiers are among the 27 of MQTT v5.0 and the identifier decoder stores the byte read unchanged. The mechanism is decided, not the enumeration of every cut of every frame.",
    technique="static analysis: CFG path rules (must-pass-through, dominance), linear-inequality proofs, constant extraction against a specification table"),
  "C05": dict(level="other", ref="§4 C05",
    text="Structural sufficient condition for termination and linear work/memory, decided from the SSA form of every function on the decode call tree: each loop (cycles = strongly connected components) is a range/counted loop over a loop-invariant bound, a loop in which every cycle reads a value of width>=1 through the sequential reader's guarded primitive and leaves on the sticky error (with the primitive's lemmas proven: no-op after an error, otherwise non-nil error or advance within len(data)), or a geometric/divisive counter loop; length-bounded loops are not nested; every make() is constant, the L-vbi-bounded frame size, or proven <= the bytes present; every append adds a constant number of elements; no recursion, no blocking primitive. Constant factors and wall-clock time are not decided.",
@@ -57,7 +57,7 @@ CHECKS = {
    text="Retention edges from the provenance analysis: no UnmarshalBinary (16 packets + 9 wire types) stores anything derived from its input slice into non-fresh memory, returns it, or writes through it; no exported API returns package-variable storage or an uncopied load of a field sharing it; package state is init-only; the frame buffer handed to UnmarshalBinary on ReadPacket's tree is a make() of that call. Proof modulo the stdlib effect table.",
    technique="static analysis: escape/retention (taint to non-fresh stores) via provenance summaries on go/ssa"),
  "C06": dict(level="proof", ref="§4 C06",
-   text="Reader-use discipline on ReadPacket's call tree decided from SSA: the reader is only read through full-read primitives, header reads use 1-byte buffers, the body buffer's length is (without arithmetic) the cell written only by the streaming length reader on the same header object, the length loop consumes one byte per iteration with a data-dependent successful exit, and every exit of the body stage lies behind the completed body read or on the length==0 edge. Hence exactly 1+k+remaining bytes are requested on success and on content rejection. Proof modulo io contracts; the numeric agreement of length value and bytes consumed is C15's.",
+   text="Reader-use discipline on ReadPacket's call tree decided from SSA: the reader is only read through full-read primitives, header reads use 1-byte buffers, the body buffer's length is (without arithmetic or narrowing conversion) the cell written only by the streaming length reader on the same header object, the length loop consumes one byte per iteration with a data-dependent successful exit, and every exit of the body stage lies behind the completed body read or on the length==0 edge. Hence exactly 1+k+remaining bytes are requested on success and on content rejection. Proof modulo io contracts; the numeric agreement of length value and bytes consumed is C15's.",
    technique="static analysis: SSA reader-use enumeration, value-identity of the buffer size, dominance / must-pass-through on the CFG"),
  "C08": dict(level="proof", ref="§4 C08",
    text="For every read site the error value is followed through dominance by its own nil-tests and through resolved call sites up to ReadPacket: each exit reachable after a read is behind `err == nil` or returns the error by identity / constant-format %w with a nil packet; buffer content is used only behind the nil edge. With full reads this gives: packet only if all bytes arrived, errors.Is(err, E) for reader failures, io.EOF at a frame boundary. Proof modulo io.ReadFull and fmt.Errorf %w contracts.",
